@@ -49,9 +49,10 @@ var censusDirs = []string{"protocol", "blockchain/types", "blockchain/validation
 
 type censusRow struct {
 	Fn, Field string // Fn = <dir>:<Receiver.>Func
+	Kind      string // field (x.F.g), call (x.F.m(): the callee may accept a nil receiver), star (*x.F)
 	File      string // base name of the source file
-	Unguarded int    // dereferences not dominated by a nil test of the same access path
-	Guarded   int    // dominated ones (informational, not pinned)
+	Unguarded int    // DISTINCT access paths with a dereference not dominated by a nil test of the same path
+	Guarded   int    // distinct paths whose dereferences are all dominated (informational, not pinned)
 	MovedFrom string // expectation row this one inherits from (site moved within the file)
 }
 
@@ -120,9 +121,9 @@ func runCensus(repo string) (*census, error) {
 	}
 	type acc struct {
 		file       string
-		ung, guard int
+		ung, guard map[string]bool // access paths (used for counting only: the names in them never reach a key)
 	}
-	pairs := map[[2]string]*acc{}
+	pairs := map[[3]string]*acc{}
 	for _, d := range censusDirs {
 		ents, err := os.ReadDir(filepath.Join(repo, d))
 		if err != nil {
@@ -184,17 +185,17 @@ func runCensus(repo string) (*census, error) {
 							return true
 						})
 					}
-					w := &derefWalker{fields: cs.Fields, pkgNames: pkgNames, hit: func(field string, guarded bool) {
-						k := [2]string{fn, field}
+					w := &derefWalker{fields: cs.Fields, pkgNames: pkgNames, hit: func(field, kind, path string, guarded bool) {
+						k := [3]string{fn, field, kind}
 						a := pairs[k]
 						if a == nil {
-							a = &acc{file: nm}
+							a = &acc{file: nm, ung: map[string]bool{}, guard: map[string]bool{}}
 							pairs[k] = a
 						}
 						if guarded {
-							a.guard++
+							a.guard[path] = true
 						} else {
-							a.ung++
+							a.ung[path] = true
 						}
 					}}
 					w.stmts(x.Body.List, map[string]bool{})
@@ -203,14 +204,23 @@ func runCensus(repo string) (*census, error) {
 		}
 	}
 	for k, v := range pairs {
-		cs.Rows = append(cs.Rows, censusRow{Fn: k[0], Field: k[1], File: v.file, Unguarded: v.ung, Guarded: v.guard})
+		g := 0
+		for p := range v.guard {
+			if !v.ung[p] {
+				g++
+			}
+		}
+		cs.Rows = append(cs.Rows, censusRow{Fn: k[0], Field: k[1], Kind: k[2], File: v.file, Unguarded: len(v.ung), Guarded: g})
 	}
 	sort.Slice(cs.Rows, func(i, j int) bool {
 		a, b := cs.Rows[i], cs.Rows[j]
 		if a.Fn != b.Fn {
 			return a.Fn < b.Fn
 		}
-		return a.Field < b.Field
+		if a.Field != b.Field {
+			return a.Field < b.Field
+		}
+		return a.Kind < b.Kind
 	})
 	return cs, nil
 }
@@ -219,7 +229,7 @@ func runCensus(repo string) (*census, error) {
 type derefWalker struct {
 	fields   map[string][]string
 	pkgNames map[string]bool
-	hit      func(field string, guarded bool)
+	hit      func(field, kind, path string, guarded bool)
 }
 
 func copySet(m map[string]bool, extra []string) map[string]bool {
@@ -375,15 +385,32 @@ func (w *derefWalker) node(n ast.Node, known map[string]bool) {
 		default:
 			w.node(x.Y, known)
 		}
+	case *ast.CallExpr:
+		if sel, ok := unparen(x.Fun).(*ast.SelectorExpr); ok {
+			if in, ok := unparen(sel.X).(*ast.SelectorExpr); ok && w.optional(in) {
+				p := types.ExprString(in)
+				w.hit(in.Sel.Name, "call", p, known[p]) // method call through the optional field
+				w.node(in.X, known)
+			} else {
+				w.node(sel.X, known)
+			}
+		} else {
+			w.node(x.Fun, known)
+		}
+		for _, a := range x.Args {
+			w.node(a, known)
+		}
 	case *ast.SelectorExpr:
 		if in, ok := unparen(x.X).(*ast.SelectorExpr); ok && w.optional(in) {
-			w.hit(in.Sel.Name, known[types.ExprString(in)])
+			p := types.ExprString(in)
+			w.hit(in.Sel.Name, "field", p, known[p])
 		}
 		w.node(x.X, known)
 	case *ast.StarExpr:
 		if in, ok := unparen(x.X).(*ast.SelectorExpr); ok && w.optional(in) {
 			if id, isId := in.X.(*ast.Ident); !(isId && w.pkgNames[id.Name]) { // *types.Block is a type, not a dereference
-				w.hit("*"+in.Sel.Name, known[types.ExprString(in)])
+				p := types.ExprString(in)
+				w.hit(in.Sel.Name, "star", p, known[p])
 			}
 		}
 		w.node(x.X, known)
@@ -407,57 +434,57 @@ func exprString(e ast.Expr) string {
 }
 
 type expectation struct {
-	Fn, Field, File string
-	Class           string
-	Unguarded       int
-	Reason          string
+	Fn, Field, Kind, File string
+	Class                 string
+	Unguarded             int
+	Reason                string
 }
 
-// loadExpectations: rows fn, field, file, unguarded, guarded (informational), class, reason
-func loadExpectations() map[[2]string]expectation {
-	m := map[[2]string]expectation{}
+// loadExpectations: rows fn, field, kind, file, unguarded, guarded (informational), class, reason
+func loadExpectations() map[[3]string]expectation {
+	m := map[[3]string]expectation{}
 	for _, l := range strings.Split(derefsExpected, "\n") {
 		if l == "" || strings.HasPrefix(l, "#") {
 			continue
 		}
-		p := strings.SplitN(l, "\t", 7)
-		if len(p) < 7 {
+		p := strings.SplitN(l, "\t", 8)
+		if len(p) < 8 {
 			continue
 		}
 		var n int
-		fmt.Sscan(p[3], &n)
-		m[[2]string{p[0], p[1]}] = expectation{Fn: p[0], Field: p[1], File: p[2], Class: p[5], Unguarded: n, Reason: p[6]}
+		fmt.Sscan(p[4], &n)
+		m[[3]string{p[0], p[1], p[2]}] = expectation{Fn: p[0], Field: p[1], Kind: p[2], File: p[3], Class: p[6], Unguarded: n, Reason: p[7]}
 	}
 	return m
 }
 
 // classify attaches the expectation to every census row; rows of functions the list does not know inherit from an
 // expected row of the same directory, file, field and count whose function no longer has that field (moved site).
-func classify(rows []censusRow, exp map[[2]string]expectation) []struct {
+func classify(rows []censusRow, exp map[[3]string]expectation) []struct {
 	Row censusRow
 	Exp *expectation
 } {
-	present := map[[2]string]bool{}
+	present := map[[3]string]bool{}
 	for _, r := range rows {
-		present[[2]string{r.Fn, r.Field}] = true
+		present[[3]string{r.Fn, r.Field, r.Kind}] = true
 	}
-	used := map[[2]string]bool{}
+	used := map[[3]string]bool{}
 	out := make([]struct {
 		Row censusRow
 		Exp *expectation
 	}, len(rows))
 	for i, r := range rows {
 		out[i].Row = r
-		if e, ok := exp[[2]string{r.Fn, r.Field}]; ok {
+		if e, ok := exp[[3]string{r.Fn, r.Field, r.Kind}]; ok {
 			ec := e
 			out[i].Exp = &ec
 		}
 	}
-	var keys [][2]string
+	var keys [][3]string
 	for k := range exp {
 		keys = append(keys, k)
 	}
-	sort.Slice(keys, func(i, j int) bool { return keys[i][0]+"|"+keys[i][1] < keys[j][0]+"|"+keys[j][1] })
+	sort.Slice(keys, func(i, j int) bool { return strings.Join(keys[i][:], "|") < strings.Join(keys[j][:], "|") })
 	for i, r := range rows {
 		if out[i].Exp != nil {
 			continue
@@ -465,7 +492,7 @@ func classify(rows []censusRow, exp map[[2]string]expectation) []struct {
 		dir := r.Fn[:strings.Index(r.Fn, ":")+1]
 		for _, k := range keys {
 			e := exp[k]
-			if present[k] || used[k] || e.Field != r.Field || e.File != r.File || !strings.HasPrefix(e.Fn, dir) || e.Unguarded != r.Unguarded {
+			if present[k] || used[k] || e.Field != r.Field || e.Kind != r.Kind || e.File != r.File || !strings.HasPrefix(e.Fn, dir) || e.Unguarded != r.Unguarded {
 				continue
 			}
 			ec := e
